@@ -34,6 +34,7 @@ pub fn workloads(thorough: bool) -> Vec<(String, HCfg)> {
     };
     // retransmissions: request_retries = 2 re-sends once, 3 twice (the default 1 never re-sends)
     add("ping-retries2", 2, vec![req(0, 1, Body::Ping, true)], 2, vec![]);
+    add("ping-retries0", 2, vec![req(0, 1, Body::Ping, true), req(1, 0, Body::Ping, true)], 0, vec![]);
     if thorough {
         add("ping-retries3", 2, vec![req(0, 1, Body::Ping, true), req(1, 0, Body::Ping, true)], 3, vec![]);
         add("retries2", 2, vec![req(0, 1, Body::Ping, true), req(0, 1, Body::Find(2), true)], 2, vec![]);
